@@ -69,6 +69,19 @@ def make_case(tier, seed, index):
         if kind == "scenario_function" and not [p for p in spec["pars"] if p["function"] and not p["timed"] and not p["name"].startswith(("agg", "out"))]:
             continue
         break
+    if kind == "extend_end" and rng.random() < 0.7:
+        # a parameter that switches exactly at a grid time (written as the grid defines it: start + j*dt): if the same time point
+        # differed in the last bit between the short and the extended run, the switch would happen one step apart
+        s_ = spec["settings"]
+        n_ = max(1, int(round((s_["end"] - s_["start"]) / s_["dt"])))
+        cands = [p for p in spec["pars"] if not p["timed"] and p["function"] is None and p["format"] in ("rate", "probability") and p["name"].startswith("q")]
+        if cands and n_ >= 3:
+            p_ = cands[int(rng.integers(0, len(cands)))]
+            terms = []
+            for j_ in sorted(set(int(x) for x in rng.integers(1, n_, size=min(6, n_ - 1)))):
+                terms.append("%r*(t>=%r)" % (float(rng.uniform(0.05, 0.4)), float(s_["start"]) + j_ * float(s_["dt"])))
+            p_["function"] = "0.05+" + "+".join(terms)
+            p_["max"] = None  # (the databook entry stays: a function parameter may have one, its calibration factor scales the function)
     Y, ykind = pick_Y(rng, spec["settings"])
     return {"kind": kind, "spec": spec, "progspec": ps, "Y": Y, "Ykind": ykind, "u": [float(x) for x in rng.random(6)]}
 
